@@ -5,7 +5,7 @@
    property directly.  Termination of the MODEL is by construction (structural recursion on fuel); that the fuel the
    driver passes suffices is observed on every run (no FUEL outcome), not yet proved.  Proved so far - the tokenizer's
    behaviour on the token classes the top-level loop dispatches on (for every amount of leading horizontal whitespace): *)
-Require Import Bebop.front.Tok Bebop.front.TokInv Bebop.front.LexInv Bebop.front.Parse Bebop.front.ParseInv Bebop.front.FmtInv Bebop.front.MsgInv Bebop.front.GenInv Bebop.front.Items Bebop.front.TyInv Bebop.front.TyMsg Bebop.front.TyItems Bebop.front.TyUnion Bebop.front.TyUnionItem Bebop.front.TyOpcode Bebop.front.TyEnum Bebop.front.TyDep Bebop.front.TyDoc Bebop.front.TyDec Bebop.front.TyImport Bebop.front.TyFDoc Bebop.front.TyFDocM Bebop.front.TyEDoc Bebop.front.TyFDec Bebop.front.TyFEol Bebop.front.TyFVar Bebop.front.Schema.
+Require Import Bebop.front.Tok Bebop.front.TokInv Bebop.front.LexInv Bebop.front.Parse Bebop.front.ParseInv Bebop.front.FmtInv Bebop.front.MsgInv Bebop.front.GenInv Bebop.front.Items Bebop.front.TyInv Bebop.front.TyMsg Bebop.front.TyItems Bebop.front.TyUnion Bebop.front.TyUnionItem Bebop.front.TyOpcode Bebop.front.TyEnum Bebop.front.TyDep Bebop.front.TyDoc Bebop.front.TyDec Bebop.front.TyImport Bebop.front.TyFDoc Bebop.front.TyFDocM Bebop.front.TyEDoc Bebop.front.TyFDec Bebop.front.TyFEol Bebop.front.TyFVar Bebop.front.TyUDoc Bebop.front.Schema.
 From Coq Require Import List NArith ZArith.
 Import ListNotations.
 
@@ -115,7 +115,7 @@ Print Assumptions C11_records.
    instances; front/TyUnion.v + front/TyUnionItem.v the union): a schema is any sequence of import lines (front/TyImport.v), struct, readonly struct, message,
    enum and (non-empty) union definitions, union branches being structs or messages under distinct indices, structs and messages
    optionally under an [opcode(..)] line (front/TyOpcode.v), enums optionally with a declared integer base type (front/TyEnum.v), message fields
-   optionally under a [deprecated("reason")] line (front/TyDep.v), structs and messages optionally under `//` doc comment lines (front/TyDoc.v), struct and message FIELDS optionally under `//` doc comment lines - which also give the field its tags - and then a [deprecated(..)] line (front/TyFDoc.v, front/TyFDocM.v), and likewise the MEMBERS of a typed enum (front/TyEDoc.v), struct fields optionally followed on their line by a `//` comment, which belongs to no definition (front/TyFEol.v);
+   optionally under a [deprecated("reason")] line (front/TyDep.v), structs and messages optionally under `//` doc comment lines (front/TyDoc.v), struct and message FIELDS optionally under `//` doc comment lines - which also give the field its tags - and then a [deprecated(..)] line (front/TyFDoc.v, front/TyFDocM.v), and likewise the MEMBERS of an enum (front/TyEDoc.v) and of a union (front/TyUDoc.v), struct fields optionally followed on their line by a `//` comment, which belongs to no definition (front/TyFEol.v);
    a field type is an
    identifier, array[T], map[K, V] with a primitive key, or any of those followed by any number of [] - nested to ANY depth
    (front/TyInv.v: read_field_type on the tokens of a type expression, by induction on the expression); enums untyped,
@@ -192,6 +192,19 @@ Definition C11_schema_statement : Prop :=
   (* the same documented bodies in a readonly struct and in an enum without a declared base type (members read as uint32) *)
   (forall nm fl k, structs_of (SFDocRoStruct nm fl k) = [{| s_name := ibytes nm; s_comment := []; s_fields := s_fields (cstruct_of (ibytes nm) (map bcf fl)); s_opcode := 0; s_readonly := true |}]) /\
   (forall nm ml k, enums_of (SFDocUEnum nm ml k) = [{| e_name := ibytes nm; e_comment := []; e_opts := e_opts (cenum_of (ibytes nm) [] true (map bce ml)); e_simple := s_uint32; e_unsigned := true |}]) /\
+  (* `//` comment lines before a union member are the comment of that member's struct / message and give the member its tags; a
+     [deprecated("reason")] line may follow them - after members whose bodies span lines too (the defect repaired by 4fdef8a) *)
+  (forall nm bl k, unions_of (SFDocUnion nm bl k) =
+     [{| un_name := ibytes nm; un_comment := []; un_opcode := 0;
+         un_fields := map (fun b =>
+           let tags := fold_left (fun tags c => match parse_tag c with Some t => tags ++ [t] | None => tags end) (fst b) [] in
+           let dm := match fst (snd b) with Some x => x | None => [] end in let dp := match fst (snd b) with Some _ => true | None => false end in
+           match snd (snd b) with
+           | LUs x bn fl => (xv x, {| u_msg := None; u_struct := Some {| s_name := ibytes bn; s_comment := join_nl (fst b); s_fields := map tfield_of (map btf fl); s_opcode := 0; s_readonly := false |};
+                                      u_tags := tags; u_depmsg := dm; u_dep := dp |})
+           | LUm x bn fl => (xv x, {| u_msg := Some {| m_name := ibytes bn; m_comment := join_nl (fst b); m_fields := map tmfield_of (map btm fl); m_opcode := 0 |}; u_struct := None;
+                                      u_tags := tags; u_depmsg := dm; u_dep := dp |})
+           end) bl |}]) /\
   (* a `//` comment AFTER a field, on the field's line, belongs to no definition: the File is that of the struct without it *)
   (forall nm fl k, structs_of (SEolStruct nm fl k) = [tstruct_of (ibytes nm) (map (fun f => btf (fst f)) fl)]) /\
   (* ANY sequence of `//` comment lines and opcode lines before a struct, readonly struct, message (fields possibly
@@ -230,11 +243,12 @@ Proof.
   - intros dl lay tail H1 H2 H3 H4 H5.
     destruct (schema_laws dl lay tail H1 H2 H3 H4 H5) as (y & _ & _ & _ & _ & Hr). exact Hr.
   - repeat match goal with |- _ /\ _ => split end; intros;
-      unfold unions_of, union_of, structs_of, messages_of, enums_of, tstruct_of, tstruct_of_ro, tmessage_of, tenum_of, dmessage_of, dec_cmt, dec_opc, popc, cstruct_of, cstruct_of_ro, cuenum_of, cmessage_of, cenum_of, estruct_of, efield_of, bef; rewrite ?map_map, ?map_app, ?fold_left_app; try reflexivity.
+      unfold unions_of, union_of, structs_of, messages_of, enums_of, tstruct_of, tstruct_of_ro, tmessage_of, tenum_of, dmessage_of, dec_cmt, dec_opc, popc, cunion_of, cstruct_of, cstruct_of_ro, cuenum_of, cmessage_of, cenum_of, estruct_of, efield_of, bef; rewrite ?map_map, ?map_app, ?fold_left_app; try reflexivity.
     + do 2 f_equal. apply map_ext. intros [x bn fl0|x bn fl0]; reflexivity.
     + unfold cmember_opt, bce, bem. do 2 f_equal. apply map_ext. intros m. cbn [fst snd]. destruct uns; reflexivity.
+    + do 2 f_equal. apply map_ext. intros [cs [d [x bn fl0|x bn fl0]]]; reflexivity.
 Qed.
-(* the hypotheses are met (two imports, an enum, a readonly struct with a map of arrays, a message with nested containers, a union, a message and a struct under opcode lines, an int16 enum, a message with a deprecated field, a struct under two comment lines, a union under comment / opcode / comment / opcode lines, a byte enum under a comment line, an empty struct, a struct with a field under a comment line and two tag lines and a deprecated field, a message with a commented deprecated field, a uint8 enum with a commented member and a deprecated one, a struct under a comment line and an opcode line whose field has its own comment line, a struct with an end-of-line comment after a field, an enum without base type with a commented member, a readonly struct with a deprecated field;
+(* the hypotheses are met (two imports, an enum, a readonly struct with a map of arrays, a message with nested containers, a union, a message and a struct under opcode lines, an int16 enum, a message with a deprecated field, a struct under two comment lines, a union under comment / opcode / comment / opcode lines, a byte enum under a comment line, an empty struct, a struct with a field under a comment line and two tag lines and a deprecated field, a message with a commented deprecated field, a uint8 enum with a commented member and a deprecated one, a struct under a comment line and an opcode line whose field has its own comment line, a struct with an end-of-line comment after a field, an enum without base type with a commented member, a readonly struct with a deprecated field, a union whose second member - after a member spanning lines - carries a comment line, a tag line and a deprecation;
    blank lines), and the conclusion computed *)
 Example C11_schema_witness :
   let E := {| ic := 69%N; itl := [] |} in let R := {| ic := 82%N; itl := [111%N] |} in let M := {| ic := 77%N; itl := [] |} in
@@ -264,14 +278,20 @@ Example C11_schema_witness :
              SDec [LDoc [100]%N; LOpc (LNum one)] (BFStruct {| ic := 90%N; itl := [] |} [([[32; 122]%N], (None, (LSimple i32 0, x)))]) 0;
              SEolStruct {| ic := 89%N; itl := [] |} [((LSimple i32 0, x), Some [32; 101]%N); ((LSimple str 0, y), None)] 0;
              SFDocUEnum {| ic := 75%N; itl := [] |} [([[32; 107]%N], (None, (A, one)))] 0;
-             SFDocRoStruct {| ic := 81%N; itl := [] |} [([], (Some [113]%N, (LSimple i32 0, x)))] 0] in
+             SFDocRoStruct {| ic := 81%N; itl := [] |} [([], (Some [113]%N, (LSimple i32 0, x)))] 0;
+             SFDocUnion {| ic := 87%N; itl := [111%N] |}
+               [([], (None, LUs one A [(LSimple i32 0, x)]));
+                ([[32; 98]%N; [91; 116; 97; 103; 40; 111; 41; 93]%N], (Some [103]%N, LUm n200 B [(one, (LSimple str 0, y))]))] 0] in
   let lay := glayout (map xel_of dl) in
   Forall sdefn_ok dl /\ map snd lay = schema_lexemes dl /\ sep_ok lay /\
   (exists s', read_file (render lay []) false = POk (schema_file dl) s') /\
   map s_readonly (structs (schema_file dl)) = [true; false; false; false; false; false; false; true] /\ map s_opcode (structs (schema_file dl)) = [0; 200; 0; 0; 0; 1; 0; 0]%N /\
   map s_comment (structs (schema_file dl)) = [[]; []; [32; 97; 10; 98]; []; []; [100]; []; []]%N /\
   map m_opcode (messages (schema_file dl)) = [0; 1145258561; 0; 0]%N /\ imports (schema_file dl) = [[97; 46; 98; 111; 112]; [98]]%N /\
-  map (fun u => (un_comment u, un_opcode u)) (unions (schema_file dl)) = [([], 0%N); ([100; 10; 101]%N, 1212630597%N)] /\
+  map (fun u => (un_comment u, un_opcode u)) (unions (schema_file dl)) = [([], 0%N); ([100; 10; 101]%N, 1212630597%N); ([], 0%N)] /\
+  map (fun p => (u_tags (snd p), u_dep (snd p), u_depmsg (snd p), match u_msg (snd p) with Some m => m_comment m | None => [] end))
+      (flat_map un_fields (skipn 2 (unions (schema_file dl))))
+  = [([], false, [], []); ([{| tg_key := [111]%N; tg_value := []; tg_bool := true |}], true, [103]%N, [32; 98; 10; 91; 116; 97; 103; 40; 111; 41; 93]%N)] /\
   map e_comment (enums (schema_file dl)) = [[]; []; [102]; []; []]%N /\
   map (fun o => (o_comment o, o_dep o, o_depmsg o, o_uvalue o)) (flat_map e_opts (skipn 3 (enums (schema_file dl)))) = [([32; 101; 10; 32; 102]%N, false, [], 1%N); ([], true, [120]%N, 200%N); ([32; 107]%N, false, [], 1%N)] /\
   map (fun p => f_dep (snd p)) (flat_map m_fields (messages (schema_file dl))) = [false; false; false; true; false; true; false] /\
